@@ -8,7 +8,7 @@ PROPS_FILES = ['Props/Properties_C16.v']
 THEOREMS = ['C16_finddomain', 'C16_fd_entries', 'C16_finddomain_property', 'C16_finddomain_orig_overread', 'C16_matchdomain',
             'C16_ip4_matchnet', 'C16_ip6_matchnet', 'C16_ipbl4', 'C16_ipbl6', 'C16_ipbl_bad_size', 'C16_ipbl_records',
             'C16_ipbl_orig_lazy', 'C16_loadlist', 'C16_lloadfile_raw', 'C16_lloadfile_mode1', 'C16_lloadfile_mode2', 'C16_lloadfile_mode3',
-            'C16_loadoneliner', 'C16_line_entry_cases', 'C16_loadint', 'C16_loadint_orig_silent']
+            'C16_loadoneliner', 'C16_compact_buffer', 'C16_loadlist_arr', 'C16_list_block_read', 'C16_line_entry_cases', 'C16_loadint', 'C16_loadint_orig_silent']
 OPS = ('fd', 'ff', 'ad', 'a4', 'a6', 'b4', 'b6', 'bf', 'c0', 'c1', 'c2', 'c3', 'c4', 'c5', 'c6', 'c7')
 ENGINES = [dict(name='control', c_sources=['control_h.c'], extract='Extract/Extract_control.v', driver='control_driver.ml',
                 accepts=lambda c: c.split(' ', 1)[0] in OPS)]
